@@ -94,10 +94,10 @@ def teardown(ctx):
 
 
 def cases(ctx):
-    n = 4000 if ctx.tier == 'quick' else 300000
+    n = 4000 if ctx.tier == 'quick' else 3000000
     for b in range(n // 50):
         yield {'batch': b}
-    for b in range(60 if ctx.tier == 'quick' else 4000):
+    for b in range(60 if ctx.tier == 'quick' else 40000):
         yield {'session': b}
 
 
